@@ -611,17 +611,15 @@ impl Printf {
                     justify,
                 } => match format_directive(file_info, directive) {
                     Ok(content) => {
-                        if let Some(width) = width {
-                            match justify {
-                                Justify::Left => {
-                                    write!(out, "{content:<width$}").unwrap();
-                                }
-                                Justify::Right => {
-                                    write!(out, "{content:>width$}").unwrap();
-                                }
-                            }
-                        } else {
-                            write!(out, "{content}").unwrap();
+                        // Pad by hand: the formatting machinery panics for a
+                        // width above u16::MAX ("Formatting argument out of range").
+                        let padding = width.map_or(0, |w| w.saturating_sub(content.chars().count()));
+                        if matches!(justify, Justify::Right) {
+                            write_blanks(&mut out, padding);
+                        }
+                        write!(out, "{content}").unwrap();
+                        if matches!(justify, Justify::Left) {
+                            write_blanks(&mut out, padding);
                         }
                     }
                     Err(e) => {
@@ -635,6 +633,16 @@ impl Printf {
                 },
             }
         }
+    }
+}
+
+/// Writes `count` blanks.
+fn write_blanks(out: &mut impl Write, mut count: usize) {
+    const BLANKS: &str = "                                                                ";
+    while count > 0 {
+        let n = count.min(BLANKS.len());
+        out.write_all(BLANKS[..n].as_bytes()).unwrap();
+        count -= n;
     }
 }
 
